@@ -1,2 +1,881 @@
-/* placeholder, replaced by the real supervisor */
-int main(void){return 0;}
+/* sysmon — ptrace supervisor for the cacache verification harness.
+ *
+ * Observes, perturbs and orders the real file-system system calls of 1..8
+ * commands. See DESIGN.md §4.3.
+ *
+ *   sysmon [options] -- cmd args... [--- cmd args...]...
+ *
+ *   --log FILE            event log (JSON lines)
+ *   --root PATH           visible root (repeatable)
+ *   --kill-at N           SIGKILL everything at the entry of visible call N (1-based)
+ *   --torn K              with --kill-at on a write/pwrite64: shorten it to K bytes, kill at its exit
+ *   --inject N:ERRNO      visible call N fails with ERRNO (repeatable)
+ *   --short N:K:ERRNO     visible call N (write) is shortened to K bytes; the next write on that fd fails
+ *   --sched PREFIX        comma separated process indices, schedule control for >= 2 commands
+ *   --tail first|rr|rand:SEED   policy once the prefix is exhausted (default first)
+ *   --nosched LIST        comma separated syscall names that are never scheduling points
+ *   --delay SEED:MAXUS    random delay before every visible call
+ *   --emulate-ficlone     emulate ioctl(FICLONE) by copying bytes
+ *   --timeout SEC         watchdog (default 60)
+ *   --stdout-prefix P     stdout of command i goes to P.i
+ *   --all-in-op           treat every call as inside an operation (no markers needed)
+ */
+#define _GNU_SOURCE
+#include <errno.h>
+#include <fcntl.h>
+#include <limits.h>
+#include <signal.h>
+#include <stdarg.h>
+#include <stdint.h>
+#include <stdio.h>
+#include <stdlib.h>
+#include <string.h>
+#include <sys/ptrace.h>
+#include <sys/stat.h>
+#include <sys/syscall.h>
+#include <sys/types.h>
+#include <sys/uio.h>
+#include <sys/user.h>
+#include <sys/wait.h>
+#include <time.h>
+#include <unistd.h>
+#include <linux/ptrace.h>
+
+#define MAXT 1024
+#define MAXP 8
+#define MAXROOT 8
+#define MAXINJ 16
+#define PATHMAX 4352
+
+#ifndef FICLONE
+#define FICLONE 0x40049409
+#endif
+#ifndef FICLONERANGE
+#define FICLONERANGE 0x4020940d
+#endif
+
+enum { PS_NOTSTARTED, PS_RUNNING, PS_PARKED, PS_DONE };
+
+struct thr {
+    pid_t tid;
+    pid_t tgid;
+    int proc;          /* command index */
+    int used;
+    int in_sys;        /* have entry info pending */
+    /* pending entry info */
+    long nr;
+    unsigned long long a[6];
+    char paths[2][PATHMAX];
+    int npaths;
+    char fdpath[PATHMAX];
+    long fdarg;
+    long long count;
+    long flags;
+    int visible;
+    long vis_n;
+    int inject_errno;  /* >0: rewrite return at exit */
+    long long force_ret; /* used with emulate */
+    int has_force_ret;
+    int kill_at_exit;
+    int parked;
+    int schedpoint;
+    struct timespec release; /* for delay */
+    int delayed;
+    long seq;
+};
+
+struct proc {
+    pid_t tgid;
+    int in_op;
+    int state;
+    int exited;
+    int exit_status;
+    /* private (O_EXCL-created, not yet renamed) paths */
+    char priv[16][PATHMAX];
+    int npriv;
+    /* fd on which the next write must fail */
+    int failfd;
+    int failfd_errno;
+};
+
+static struct thr T[MAXT];
+static struct proc P[MAXP];
+static int nproc = 0;
+static FILE *logf = NULL;
+static char roots[MAXROOT][PATHMAX];
+static int nroots = 0;
+static long kill_at = 0;
+static long long torn = -1;
+static struct { long n; int err; long long shortk; } inj[MAXINJ];
+static int ninj = 0;
+static int sched_on = 0;
+static int prefix[65536];
+static int nprefix = 0;
+static int prefix_pos = 0;
+static int tail_policy = 0; /* 0 first, 1 rr, 2 rand */
+static unsigned long long rngstate = 88172645463325252ULL;
+static int rr_last = -1;
+static char nosched[64][32];
+static int nnosched = 0;
+static int delay_on = 0;
+static long delay_max_us = 0;
+static int emulate_ficlone = 0;
+static int timeout_s = 60;
+static int all_in_op = 0;
+static long visible_count = 0;
+static long seq = 0;
+static long decisions = 0;
+static volatile sig_atomic_t alarmed = 0;
+static int killed = 0;
+static char stdout_prefix[PATHMAX] = "";
+
+static unsigned long long rnd(void) {
+    rngstate ^= rngstate << 13;
+    rngstate ^= rngstate >> 7;
+    rngstate ^= rngstate << 17;
+    return rngstate;
+}
+
+static void on_alarm(int s) { (void)s; alarmed = 1; }
+
+static void die(const char *fmt, ...) {
+    va_list ap;
+    va_start(ap, fmt);
+    fprintf(stderr, "sysmon: ");
+    vfprintf(stderr, fmt, ap);
+    fprintf(stderr, "\n");
+    va_end(ap);
+    exit(4);
+}
+
+struct scname { long nr; const char *name; };
+static const struct scname NAMES[] = {
+    {SYS_open, "open"}, {SYS_openat, "openat"}, {SYS_creat, "creat"}, {437, "openat2"},
+    {SYS_read, "read"}, {SYS_pread64, "pread64"}, {SYS_readv, "readv"}, {SYS_preadv, "preadv"}, {327, "preadv2"},
+    {SYS_write, "write"}, {SYS_pwrite64, "pwrite64"}, {SYS_writev, "writev"}, {SYS_pwritev, "pwritev"}, {328, "pwritev2"},
+    {SYS_rename, "rename"}, {SYS_renameat, "renameat"}, {316, "renameat2"},
+    {SYS_link, "link"}, {SYS_linkat, "linkat"}, {SYS_symlink, "symlink"}, {SYS_symlinkat, "symlinkat"},
+    {SYS_unlink, "unlink"}, {SYS_unlinkat, "unlinkat"}, {SYS_rmdir, "rmdir"}, {SYS_mkdir, "mkdir"}, {SYS_mkdirat, "mkdirat"},
+    {SYS_stat, "stat"}, {SYS_lstat, "lstat"}, {SYS_fstat, "fstat"}, {SYS_newfstatat, "newfstatat"}, {332, "statx"},
+    {SYS_access, "access"}, {SYS_faccessat, "faccessat"}, {439, "faccessat2"},
+    {SYS_readlink, "readlink"}, {SYS_readlinkat, "readlinkat"},
+    {SYS_getdents64, "getdents64"}, {SYS_getdents, "getdents"},
+    {SYS_truncate, "truncate"}, {SYS_ftruncate, "ftruncate"}, {SYS_fallocate, "fallocate"},
+    {SYS_mmap, "mmap"}, {326, "copy_file_range"}, {SYS_sendfile, "sendfile"}, {SYS_ioctl, "ioctl"},
+    {SYS_fsync, "fsync"}, {SYS_fdatasync, "fdatasync"}, {SYS_sync_file_range, "sync_file_range"},
+    {SYS_chmod, "chmod"}, {SYS_fchmod, "fchmod"}, {SYS_fchmodat, "fchmodat"},
+    {SYS_chown, "chown"}, {SYS_fchown, "fchown"}, {SYS_lchown, "lchown"}, {SYS_fchownat, "fchownat"},
+    {SYS_utimensat, "utimensat"}, {SYS_utime, "utime"}, {SYS_utimes, "utimes"}, {SYS_futimesat, "futimesat"},
+    {SYS_setxattr, "setxattr"}, {SYS_lsetxattr, "lsetxattr"}, {SYS_fsetxattr, "fsetxattr"},
+    {SYS_removexattr, "removexattr"}, {SYS_lremovexattr, "lremovexattr"}, {SYS_fremovexattr, "fremovexattr"},
+    {SYS_mknod, "mknod"}, {SYS_mknodat, "mknodat"}, {SYS_chdir, "chdir"},
+    {0, NULL}};
+
+static const char *scname(long nr) {
+    for (int i = 0; NAMES[i].name; i++)
+        if (NAMES[i].nr == nr) return NAMES[i].name;
+    return NULL;
+}
+
+static struct thr *find_thr(pid_t tid) {
+    for (int i = 0; i < MAXT; i++)
+        if (T[i].used && T[i].tid == tid) return &T[i];
+    return NULL;
+}
+
+static pid_t read_tgid(pid_t tid) {
+    char p[64], line[256];
+    snprintf(p, sizeof p, "/proc/%d/status", tid);
+    FILE *f = fopen(p, "r");
+    if (!f) return tid;
+    pid_t tg = tid;
+    while (fgets(line, sizeof line, f)) {
+        if (!strncmp(line, "Tgid:", 5)) { tg = atoi(line + 5); break; }
+    }
+    fclose(f);
+    return tg;
+}
+
+static int proc_of_tgid(pid_t tgid) {
+    for (int i = 0; i < nproc; i++)
+        if (P[i].tgid == tgid) return i;
+    return -1;
+}
+
+static struct thr *add_thr(pid_t tid, int proc_hint) {
+    struct thr *t = find_thr(tid);
+    if (t) return t;
+    for (int i = 0; i < MAXT; i++)
+        if (!T[i].used) {
+            memset(&T[i], 0, sizeof T[i]);
+            T[i].used = 1;
+            T[i].tid = tid;
+            T[i].tgid = read_tgid(tid);
+            int p = proc_of_tgid(T[i].tgid);
+            T[i].proc = p >= 0 ? p : proc_hint;
+            return &T[i];
+        }
+    die("too many threads");
+    return NULL;
+}
+
+static int read_str(pid_t tid, unsigned long long addr, char *out, size_t cap) {
+    if (!addr) { out[0] = 0; return -1; }
+    size_t off = 0;
+    while (off + 1 < cap) {
+        char buf[256];
+        struct iovec l = {buf, sizeof buf};
+        /* do not cross a page boundary in one read */
+        size_t page_left = 4096 - ((addr + off) & 4095);
+        size_t want = page_left < sizeof buf ? page_left : sizeof buf;
+        struct iovec r = {(void *)(uintptr_t)(addr + off), want};
+        ssize_t n = process_vm_readv(tid, &l, 1, &r, 1, 0);
+        if (n <= 0) { out[off] = 0; return off ? 0 : -1; }
+        for (ssize_t i = 0; i < n; i++) {
+            if (off + 1 >= cap) { out[off] = 0; return 0; }
+            out[off++] = buf[i];
+            if (!buf[i]) return 0;
+        }
+    }
+    out[off] = 0;
+    return 0;
+}
+
+/* lexical normalisation of an absolute path */
+static void normalize(char *p) {
+    char out[PATHMAX];
+    size_t n = 0;
+    char *save = NULL;
+    char tmp[PATHMAX];
+    strncpy(tmp, p, sizeof tmp - 1);
+    tmp[sizeof tmp - 1] = 0;
+    out[0] = 0;
+    for (char *tok = strtok_r(tmp, "/", &save); tok; tok = strtok_r(NULL, "/", &save)) {
+        if (!strcmp(tok, ".")) continue;
+        if (!strcmp(tok, "..")) {
+            while (n > 0 && out[n - 1] != '/') n--;
+            if (n > 0) n--;
+            out[n] = 0;
+            continue;
+        }
+        size_t l = strlen(tok);
+        if (n + l + 2 >= sizeof out) break;
+        out[n++] = '/';
+        memcpy(out + n, tok, l);
+        n += l;
+        out[n] = 0;
+    }
+    if (n == 0) strcpy(out, "/");
+    strcpy(p, out);
+}
+
+static void fd_to_path(pid_t tid, long fd, char *out, size_t cap) {
+    char l[64];
+    if (fd == AT_FDCWD) snprintf(l, sizeof l, "/proc/%d/cwd", tid);
+    else snprintf(l, sizeof l, "/proc/%d/fd/%ld", tid, fd);
+    ssize_t n = readlink(l, out, cap - 1);
+    if (n < 0) n = 0;
+    out[n] = 0;
+    /* " (deleted)" suffix of unlinked files is kept: still identifies the file */
+}
+
+static void resolve_at(pid_t tid, long dirfd, unsigned long long addr, char *out) {
+    char s[PATHMAX];
+    if (read_str(tid, addr, s, sizeof s) < 0) { out[0] = 0; return; }
+    if (s[0] == '/') {
+        strncpy(out, s, PATHMAX - 1);
+        out[PATHMAX - 1] = 0;
+    } else {
+        char d[PATHMAX];
+        fd_to_path(tid, dirfd, d, sizeof d);
+        if (s[0] == 0) { strncpy(out, d, PATHMAX - 1); out[PATHMAX - 1] = 0; }
+        else snprintf(out, PATHMAX, "%.*s/%.*s", 2100, d, 2100, s);
+    }
+    normalize(out);
+}
+
+static int under_root(const char *p) {
+    if (!p[0]) return 0;
+    for (int i = 0; i < nroots; i++) {
+        size_t l = strlen(roots[i]);
+        if (!strncmp(p, roots[i], l) && (p[l] == 0 || p[l] == '/')) return 1;
+    }
+    return 0;
+}
+
+static void json_str(FILE *f, const char *s) {
+    fputc('"', f);
+    for (const unsigned char *c = (const unsigned char *)s; *c; c++) {
+        if (*c == '"' || *c == '\\') fprintf(f, "\\%c", *c);
+        else if (*c < 0x20) fprintf(f, "\\u%04x", *c);
+        else if (*c >= 0x80) fprintf(f, "\\u%04x", 0xdc00 + *c); /* raw byte, lossless */
+        else fputc(*c, f);
+    }
+    fputc('"', f);
+}
+
+/* decode the syscall's path-like arguments into t->paths / fdpath */
+static void decode(struct thr *t) {
+    pid_t tid = t->tid;
+    unsigned long long *a = t->a;
+    t->npaths = 0;
+    t->fdpath[0] = 0;
+    t->fdarg = -1;
+    t->count = -1;
+    t->flags = 0;
+#define PATH_AT(dfd, addr) do { resolve_at(tid, (long)(int)(dfd), (addr), t->paths[t->npaths]); t->npaths++; } while (0)
+#define FD(fd) do { t->fdarg = (long)(int)(fd); fd_to_path(tid, t->fdarg, t->fdpath, PATHMAX); } while (0)
+    switch (t->nr) {
+    case SYS_open: PATH_AT(AT_FDCWD, a[0]); t->flags = a[1]; break;
+    case SYS_creat: PATH_AT(AT_FDCWD, a[0]); t->flags = O_CREAT | O_WRONLY | O_TRUNC; break;
+    case SYS_openat: PATH_AT(a[0], a[1]); t->flags = a[2]; break;
+    case 437: {
+        PATH_AT(a[0], a[1]);
+        unsigned long long how[3] = {0, 0, 0};
+        struct iovec l = {how, sizeof how}, r = {(void *)(uintptr_t)a[2], sizeof how};
+        if (process_vm_readv(tid, &l, 1, &r, 1, 0) > 0) t->flags = how[0];
+        break;
+    }
+    case SYS_read: case SYS_pread64: case SYS_write: case SYS_pwrite64:
+        FD(a[0]); t->count = a[2]; break;
+    case SYS_readv: case SYS_preadv: case 327: case SYS_writev: case SYS_pwritev: case 328:
+        FD(a[0]); t->count = a[2]; break;
+    case SYS_rename: PATH_AT(AT_FDCWD, a[0]); PATH_AT(AT_FDCWD, a[1]); break;
+    case SYS_renameat: case 316: PATH_AT(a[0], a[1]); PATH_AT(a[2], a[3]); t->flags = t->nr == 316 ? a[4] : 0; break;
+    case SYS_link: PATH_AT(AT_FDCWD, a[0]); PATH_AT(AT_FDCWD, a[1]); break;
+    case SYS_linkat: PATH_AT(a[0], a[1]); PATH_AT(a[2], a[3]); t->flags = a[4]; break;
+    case SYS_symlink: /* target string is not a touched path */ PATH_AT(AT_FDCWD, a[1]); break;
+    case SYS_symlinkat: PATH_AT(a[1], a[2]); break;
+    case SYS_unlink: case SYS_rmdir: case SYS_mkdir: case SYS_stat: case SYS_lstat: case SYS_access:
+    case SYS_readlink: case SYS_truncate: case SYS_chmod: case SYS_chown: case SYS_lchown:
+    case SYS_utime: case SYS_utimes: case SYS_setxattr: case SYS_lsetxattr: case SYS_removexattr:
+    case SYS_lremovexattr: case SYS_mknod: case SYS_chdir:
+        PATH_AT(AT_FDCWD, a[0]); if (t->nr == SYS_truncate) t->count = a[1]; break;
+    case SYS_unlinkat: PATH_AT(a[0], a[1]); t->flags = a[2]; break;
+    case SYS_mkdirat: case SYS_faccessat: case 439: case SYS_readlinkat: case SYS_fchmodat:
+    case SYS_fchownat: case SYS_futimesat: case SYS_mknodat:
+        PATH_AT(a[0], a[1]); break;
+    case SYS_newfstatat: PATH_AT(a[0], a[1]); t->flags = a[3]; break;
+    case 332: PATH_AT(a[0], a[1]); t->flags = a[2]; break;
+    case SYS_utimensat:
+        if (a[1]) PATH_AT(a[0], a[1]); else FD(a[0]);
+        break;
+    case SYS_fstat: case SYS_getdents64: case SYS_getdents: case SYS_fsync: case SYS_fdatasync:
+    case SYS_sync_file_range: case SYS_fchmod: case SYS_fchown: case SYS_fsetxattr: case SYS_fremovexattr:
+        FD(a[0]); break;
+    case SYS_ftruncate: FD(a[0]); t->count = a[1]; break;
+    case SYS_fallocate: FD(a[0]); t->flags = a[1]; t->count = a[3]; break;
+    case SYS_mmap:
+        if ((int)a[4] >= 0 && !(a[3] & 0x20 /*MAP_ANONYMOUS*/)) { FD(a[4]); t->flags = (a[2] << 16) | (a[3] & 0xffff); t->count = a[1]; }
+        break;
+    case 326: /* copy_file_range(fd_in, off_in, fd_out, ...) */
+        FD(a[2]);
+        fd_to_path(tid, (long)(int)a[0], t->paths[0], PATHMAX); t->npaths = 1; t->count = a[4];
+        break;
+    case SYS_sendfile: /* sendfile(out_fd, in_fd, ...) */
+        FD(a[0]);
+        fd_to_path(tid, (long)(int)a[1], t->paths[0], PATHMAX); t->npaths = 1; t->count = a[3];
+        break;
+    case SYS_ioctl:
+        if ((a[1] & 0xffffffffULL) == FICLONE || (a[1] & 0xffffffffULL) == FICLONERANGE) {
+            FD(a[0]); t->flags = a[1] & 0xffffffffULL;
+            if ((a[1] & 0xffffffffULL) == FICLONE) { fd_to_path(tid, (long)(int)a[2], t->paths[0], PATHMAX); t->npaths = 1; }
+        }
+        break;
+    default: break;
+    }
+}
+
+static void log_event(struct thr *t, long long ret, int has_ret, const char *decision) {
+    if (!logf) return;
+    const char *nm = scname(t->nr);
+    fprintf(logf, "{\"seq\":%ld,\"n\":%ld,\"proc\":%d,\"pid\":%d,\"tid\":%d,\"name\":\"%s\",\"nr\":%ld,\"paths\":[",
+            t->seq, t->visible ? t->vis_n : 0L, t->proc, t->tgid, t->tid, nm ? nm : "?", t->nr);
+    for (int i = 0; i < t->npaths; i++) {
+        if (i) fputc(',', logf);
+        json_str(logf, t->paths[i]);
+    }
+    fprintf(logf, "],\"fd\":%ld,\"fd_path\":", t->fdarg);
+    json_str(logf, t->fdpath);
+    fprintf(logf, ",\"count\":%lld,\"flags\":%ld,\"in_op\":%s,\"visible\":%s,\"sched\":%s", t->count, t->flags,
+            (t->proc >= 0 && (P[t->proc].in_op || all_in_op)) ? "true" : "false", t->visible ? "true" : "false",
+            t->schedpoint ? "true" : "false");
+    if (has_ret) fprintf(logf, ",\"ret\":%lld", ret);
+    else fprintf(logf, ",\"ret\":null");
+    if (t->inject_errno) fprintf(logf, ",\"injected\":%d", t->inject_errno);
+    if (decision) fprintf(logf, ",\"decision\":\"%s\"", decision);
+    fprintf(logf, "}\n");
+}
+
+static void kill_all(void) {
+    killed = 1;
+    for (int i = 0; i < nproc; i++)
+        if (!P[i].exited) kill(P[i].tgid, SIGKILL);
+    for (int i = 0; i < MAXT; i++)
+        if (T[i].used) kill(T[i].tid, SIGKILL);
+}
+
+static int is_nosched(const char *nm) {
+    for (int i = 0; i < nnosched; i++)
+        if (!strcmp(nosched[i], nm)) return 1;
+    return 0;
+}
+
+static int is_private(struct proc *p, const char *path) {
+    for (int i = 0; i < p->npriv; i++)
+        if (!strcmp(p->priv[i], path)) return 1;
+    return 0;
+}
+
+static void drop_private(struct proc *p, const char *path) {
+    for (int i = 0; i < p->npriv; i++)
+        if (!strcmp(p->priv[i], path)) {
+            memmove(&p->priv[i], &p->priv[i + 1], (p->npriv - i - 1) * PATHMAX);
+            p->npriv--;
+            return;
+        }
+}
+
+static void resume(struct thr *t) {
+    t->parked = 0;
+    t->delayed = 0;
+    if (ptrace(PTRACE_SYSCALL, t->tid, 0, 0) < 0 && errno != ESRCH) perror("PTRACE_SYSCALL");
+}
+
+/* choose and release one parked process if no process is running */
+static void maybe_decide(void) {
+    if (!sched_on) return;
+    for (;;) {
+        int enabled[MAXP], ne = 0;
+        for (int i = 0; i < nproc; i++) {
+            if (P[i].exited) continue;
+            if (P[i].state == PS_NOTSTARTED || P[i].state == PS_RUNNING) return;
+            if (P[i].state == PS_PARKED) enabled[ne++] = i;
+        }
+        if (ne == 0) return;
+        int choice = -1;
+        while (prefix_pos < nprefix) {
+            int c = prefix[prefix_pos++];
+            for (int k = 0; k < ne; k++)
+                if (enabled[k] == c) choice = c;
+            if (choice >= 0) break;
+            /* prefix entry not enabled: skip it (logged) */
+            if (logf) fprintf(logf, "{\"skipped_prefix\":%d,\"at_decision\":%ld}\n", c, decisions);
+        }
+        if (choice < 0) {
+            if (tail_policy == 0) choice = enabled[0];
+            else if (tail_policy == 1) {
+                choice = enabled[0];
+                for (int k = 0; k < ne; k++)
+                    if (enabled[k] > rr_last) { choice = enabled[k]; break; }
+            } else choice = enabled[rnd() % ne];
+        }
+        rr_last = choice;
+        if (logf) {
+            fprintf(logf, "{\"decision\":%ld,\"enabled\":[", decisions);
+            for (int k = 0; k < ne; k++) fprintf(logf, "%s%d", k ? "," : "", enabled[k]);
+            fprintf(logf, "],\"chosen\":%d}\n", choice);
+        }
+        decisions++;
+        /* release the parked thread of the chosen process */
+        struct thr *rel = NULL;
+        for (int i = 0; i < MAXT; i++)
+            if (T[i].used && T[i].parked && T[i].proc == choice) { rel = &T[i]; break; }
+        P[choice].state = PS_RUNNING;
+        if (rel) { resume(rel); return; }
+        /* no parked thread found (should not happen): loop again */
+    }
+}
+
+static void do_ficlone(struct thr *t) {
+    char src[64], dst[64];
+    snprintf(src, sizeof src, "/proc/%d/fd/%d", t->tid, (int)t->a[2]);
+    snprintf(dst, sizeof dst, "/proc/%d/fd/%d", t->tid, (int)t->a[0]);
+    int s = open(src, O_RDONLY), d = open(dst, O_WRONLY | O_TRUNC);
+    long long rc = 0;
+    if (s < 0 || d < 0) rc = -EBADF;
+    else {
+        char buf[65536];
+        ssize_t n;
+        while ((n = read(s, buf, sizeof buf)) > 0) {
+            ssize_t off = 0;
+            while (off < n) {
+                ssize_t w = write(d, buf + off, n - off);
+                if (w <= 0) { rc = -EIO; break; }
+                off += w;
+            }
+            if (rc) break;
+        }
+        if (n < 0) rc = -EIO;
+    }
+    if (s >= 0) close(s);
+    if (d >= 0) close(d);
+    t->has_force_ret = 1;
+    t->force_ret = rc;
+}
+
+static void set_syscall_skip(struct thr *t) {
+    struct user_regs_struct r;
+    if (ptrace(PTRACE_GETREGS, t->tid, 0, &r) == 0) {
+        r.orig_rax = (unsigned long long)-1;
+        ptrace(PTRACE_SETREGS, t->tid, 0, &r);
+    }
+}
+
+/* returns 1 if the thread must stay stopped (parked/delayed), 0 to resume */
+static int on_entry(struct thr *t) {
+    struct user_regs_struct r;
+    if (ptrace(PTRACE_GETREGS, t->tid, 0, &r) < 0) return 0;
+    t->nr = (long)r.orig_rax;
+    t->a[0] = r.rdi; t->a[1] = r.rsi; t->a[2] = r.rdx; t->a[3] = r.r10; t->a[4] = r.r8; t->a[5] = r.r9;
+    t->in_sys = 1;
+    t->visible = 0;
+    t->inject_errno = 0;
+    t->has_force_ret = 0;
+    t->kill_at_exit = 0;
+    t->schedpoint = 0;
+    t->npaths = 0;
+    t->seq = ++seq;
+    const char *nm = scname(t->nr);
+    if (!nm) { t->in_sys = 2; return 0; } /* uninteresting */
+    if (t->proc < 0) { t->in_sys = 2; return 0; }
+    struct proc *p = &P[t->proc];
+    decode(t);
+    /* markers */
+    if ((t->nr == SYS_access || t->nr == SYS_faccessat || t->nr == 439) && t->npaths == 1 &&
+        !strncmp(t->paths[0], "/__cv_marker__/", 15)) {
+        if (!strcmp(t->paths[0] + 15, "begin")) { p->in_op = 1; p->state = PS_RUNNING; }
+        else if (!strcmp(t->paths[0] + 15, "end")) { p->in_op = 0; p->state = PS_DONE; }
+        if (logf) fprintf(logf, "{\"marker\":\"%s\",\"proc\":%d,\"seq\":%ld}\n", t->paths[0] + 15, t->proc, t->seq);
+        t->in_sys = 2;
+        maybe_decide();
+        return 0;
+    }
+    if (t->nr == SYS_mmap && t->fdarg < 0) { t->in_sys = 2; return 0; }
+    if (t->nr == SYS_ioctl && t->fdarg < 0) { t->in_sys = 2; return 0; }
+    int inop = p->in_op || all_in_op;
+    int vis = 0;
+    if (inop) {
+        for (int i = 0; i < t->npaths; i++)
+            if (under_root(t->paths[i])) vis = 1;
+        if (t->fdpath[0] && under_root(t->fdpath)) vis = 1;
+    }
+    t->visible = vis;
+    if (!vis) return 0;
+    t->vis_n = ++visible_count;
+    /* pending "next write on this fd fails" */
+    if (p->failfd >= 0 && t->fdarg == p->failfd &&
+        (t->nr == SYS_write || t->nr == SYS_pwrite64 || t->nr == SYS_writev || t->nr == SYS_pwritev)) {
+        t->inject_errno = p->failfd_errno;
+        p->failfd = -1;
+        set_syscall_skip(t);
+        return 0;
+    }
+    /* kill */
+    if (kill_at && t->vis_n == kill_at) {
+        if (torn >= 0 && (t->nr == SYS_write || t->nr == SYS_pwrite64) && (long long)t->a[2] > torn) {
+            r.rdx = (unsigned long long)torn;
+            ptrace(PTRACE_SETREGS, t->tid, 0, &r);
+            t->kill_at_exit = 1;
+            return 0;
+        }
+        log_event(t, 0, 0, "killed_at_entry");
+        kill_all();
+        return 0;
+    }
+    /* injection */
+    for (int i = 0; i < ninj; i++) {
+        if (inj[i].n != t->vis_n) continue;
+        if (inj[i].shortk >= 0) {
+            if ((t->nr == SYS_write || t->nr == SYS_pwrite64) && (long long)t->a[2] > inj[i].shortk) {
+                r.rdx = (unsigned long long)inj[i].shortk;
+                ptrace(PTRACE_SETREGS, t->tid, 0, &r);
+                p->failfd = (int)t->fdarg;
+                p->failfd_errno = inj[i].err;
+                t->count = inj[i].shortk;
+            } else {
+                t->inject_errno = inj[i].err;
+                set_syscall_skip(t);
+            }
+        } else {
+            t->inject_errno = inj[i].err;
+            set_syscall_skip(t);
+        }
+        return 0;
+    }
+    if (emulate_ficlone && t->nr == SYS_ioctl && t->flags == FICLONE) {
+        do_ficlone(t);
+        set_syscall_skip(t);
+        return 0;
+    }
+    /* scheduling */
+    if (sched_on) {
+        int sp = !is_nosched(nm);
+        if (sp) {
+            /* calls that only touch the process's own unpublished temp file are not scheduling points */
+            int all_private = 1, any = 0;
+            if (t->nr == SYS_rename || t->nr == SYS_renameat || t->nr == 316 || t->nr == SYS_link || t->nr == SYS_linkat) {
+                all_private = 0; /* publishing */
+            } else {
+                for (int i = 0; i < t->npaths; i++) { any = 1; if (!is_private(p, t->paths[i])) all_private = 0; }
+                if (t->fdpath[0]) { any = 1; if (!is_private(p, t->fdpath)) all_private = 0; }
+                if (!any) all_private = 0;
+                /* creation of the temp file itself: O_EXCL|O_CREAT open is private by construction */
+                if ((t->nr == SYS_openat || t->nr == SYS_open) && (t->flags & O_EXCL) && (t->flags & O_CREAT)) all_private = 1;
+            }
+            if (all_private) sp = 0;
+        }
+        t->schedpoint = sp;
+        if (sp) {
+            t->parked = 1;
+            p->state = PS_PARKED;
+            maybe_decide(); /* may release this very thread; either way the caller must not resume it */
+            return 1;
+        }
+    }
+    if (delay_on) {
+        long us = (long)(rnd() % (unsigned long long)(delay_max_us + 1));
+        if (us > 0) {
+            clock_gettime(CLOCK_MONOTONIC, &t->release);
+            t->release.tv_nsec += (us % 1000000) * 1000L;
+            t->release.tv_sec += us / 1000000 + t->release.tv_nsec / 1000000000L;
+            t->release.tv_nsec %= 1000000000L;
+            t->delayed = 1;
+            return 1;
+        }
+    }
+    return 0;
+}
+
+static void on_exit_stop(struct thr *t) {
+    if (t->in_sys == 2) { t->in_sys = 0; return; }
+    t->in_sys = 0;
+    struct user_regs_struct r;
+    if (ptrace(PTRACE_GETREGS, t->tid, 0, &r) < 0) return;
+    long long ret = (long long)r.rax;
+    if (t->inject_errno) {
+        r.rax = (unsigned long long)(long long)(-t->inject_errno);
+        ptrace(PTRACE_SETREGS, t->tid, 0, &r);
+        ret = -t->inject_errno;
+    } else if (t->has_force_ret) {
+        r.rax = (unsigned long long)t->force_ret;
+        ptrace(PTRACE_SETREGS, t->tid, 0, &r);
+        ret = t->force_ret;
+    }
+    if (t->proc >= 0) {
+        struct proc *p = &P[t->proc];
+        /* private temp file tracking */
+        if ((t->nr == SYS_openat || t->nr == SYS_open) && ret >= 0 && (t->flags & O_EXCL) && (t->flags & O_CREAT) &&
+            t->npaths == 1 && p->npriv < 16) {
+            strcpy(p->priv[p->npriv++], t->paths[0]);
+        }
+        if ((t->nr == SYS_rename || t->nr == SYS_renameat || t->nr == 316) && ret == 0 && t->npaths == 2)
+            drop_private(p, t->paths[0]);
+        if ((t->nr == SYS_unlink || t->nr == SYS_unlinkat) && ret == 0 && t->npaths == 1)
+            drop_private(p, t->paths[0]);
+    }
+    if (t->visible || (logf && t->proc >= 0 && scname(t->nr) && (P[t->proc].in_op || all_in_op)))
+        log_event(t, ret, 1, t->kill_at_exit ? "torn_then_killed" : NULL);
+    if (t->kill_at_exit) kill_all();
+}
+
+static void parse_list(const char *s) {
+    char tmp[4096];
+    strncpy(tmp, s, sizeof tmp - 1);
+    tmp[sizeof tmp - 1] = 0;
+    char *save = NULL;
+    for (char *tok = strtok_r(tmp, ",", &save); tok; tok = strtok_r(NULL, ",", &save))
+        if (nnosched < 64) { strncpy(nosched[nnosched], tok, 31); nnosched++; }
+}
+
+int main(int argc, char **argv) {
+    int i = 1;
+    const char *logpath = NULL;
+    for (; i < argc; i++) {
+        if (!strcmp(argv[i], "--")) { i++; break; }
+        else if (!strcmp(argv[i], "--log") && i + 1 < argc) logpath = argv[++i];
+        else if (!strcmp(argv[i], "--root") && i + 1 < argc) {
+            if (nroots < MAXROOT) { strncpy(roots[nroots], argv[++i], PATHMAX - 1); normalize(roots[nroots]); nroots++; }
+        } else if (!strcmp(argv[i], "--kill-at") && i + 1 < argc) kill_at = atol(argv[++i]);
+        else if (!strcmp(argv[i], "--torn") && i + 1 < argc) torn = atoll(argv[++i]);
+        else if (!strcmp(argv[i], "--inject") && i + 1 < argc) {
+            long n; int e;
+            if (sscanf(argv[++i], "%ld:%d", &n, &e) == 2 && ninj < MAXINJ) { inj[ninj].n = n; inj[ninj].err = e; inj[ninj].shortk = -1; ninj++; }
+        } else if (!strcmp(argv[i], "--short") && i + 1 < argc) {
+            long n; long long k; int e;
+            if (sscanf(argv[++i], "%ld:%lld:%d", &n, &k, &e) == 3 && ninj < MAXINJ) { inj[ninj].n = n; inj[ninj].err = e; inj[ninj].shortk = k; ninj++; }
+        } else if (!strcmp(argv[i], "--sched") && i + 1 < argc) {
+            sched_on = 1;
+            char *s = argv[++i], *save = NULL;
+            char *tmp = strdup(s);
+            for (char *tok = strtok_r(tmp, ",", &save); tok; tok = strtok_r(NULL, ",", &save))
+                if (*tok && nprefix < 65536) prefix[nprefix++] = atoi(tok);
+            free(tmp);
+        } else if (!strcmp(argv[i], "--tail") && i + 1 < argc) {
+            const char *s = argv[++i];
+            if (!strcmp(s, "first")) tail_policy = 0;
+            else if (!strcmp(s, "rr")) tail_policy = 1;
+            else if (!strncmp(s, "rand:", 5)) { tail_policy = 2; rngstate ^= strtoull(s + 5, NULL, 10) * 0x9E3779B97F4A7C15ULL + 1; for (int k = 0; k < 4; k++) rnd(); }
+        } else if (!strcmp(argv[i], "--nosched") && i + 1 < argc) parse_list(argv[++i]);
+        else if (!strcmp(argv[i], "--delay") && i + 1 < argc) {
+            unsigned long long sd; long mx;
+            if (sscanf(argv[++i], "%llu:%ld", &sd, &mx) == 2) { delay_on = 1; delay_max_us = mx; rngstate ^= sd * 0x9E3779B97F4A7C15ULL + 1; for (int k = 0; k < 4; k++) rnd(); }
+        } else if (!strcmp(argv[i], "--emulate-ficlone")) emulate_ficlone = 1;
+        else if (!strcmp(argv[i], "--timeout") && i + 1 < argc) timeout_s = atoi(argv[++i]);
+        else if (!strcmp(argv[i], "--stdout-prefix") && i + 1 < argc) strncpy(stdout_prefix, argv[++i], PATHMAX - 1);
+        else if (!strcmp(argv[i], "--all-in-op")) all_in_op = 1;
+        else die("unknown option %s", argv[i]);
+    }
+    if (i >= argc) die("no command");
+    if (logpath) {
+        logf = fopen(logpath, "w");
+        if (!logf) die("cannot open log %s", logpath);
+        setvbuf(logf, NULL, _IOFBF, 1 << 16);
+    }
+    /* split commands at '---' */
+    char **cmds[MAXP];
+    int nc = 0;
+    cmds[nc++] = &argv[i];
+    for (int k = i; k < argc; k++)
+        if (!strcmp(argv[k], "---")) {
+            argv[k] = NULL;
+            if (nc < MAXP && k + 1 < argc) cmds[nc++] = &argv[k + 1];
+        }
+    nproc = nc;
+    struct sigaction sa;
+    memset(&sa, 0, sizeof sa);
+    sa.sa_handler = on_alarm;
+    sigaction(SIGALRM, &sa, NULL);
+    for (int c = 0; c < nc; c++) {
+        pid_t pid = fork();
+        if (pid < 0) die("fork");
+        if (pid == 0) {
+            if (stdout_prefix[0]) {
+                char op[PATHMAX + 16];
+                snprintf(op, sizeof op, "%s.%d", stdout_prefix, c);
+                int fd = open(op, O_WRONLY | O_CREAT | O_TRUNC, 0644);
+                if (fd >= 0) { dup2(fd, 1); close(fd); }
+            }
+            ptrace(PTRACE_TRACEME, 0, 0, 0);
+            raise(SIGSTOP);
+            execvp(cmds[c][0], cmds[c]);
+            _exit(127);
+        }
+        int st;
+        if (waitpid(pid, &st, __WALL) < 0 || !WIFSTOPPED(st)) die("child did not stop");
+        if (ptrace(PTRACE_SETOPTIONS, pid, 0,
+                   PTRACE_O_TRACESYSGOOD | PTRACE_O_TRACECLONE | PTRACE_O_TRACEFORK | PTRACE_O_TRACEVFORK |
+                       PTRACE_O_TRACEEXEC | PTRACE_O_EXITKILL) < 0)
+            die("PTRACE_SETOPTIONS: %s", strerror(errno));
+        memset(&P[c], 0, sizeof P[c]);
+        P[c].tgid = pid;
+        P[c].state = all_in_op ? PS_RUNNING : PS_NOTSTARTED;
+        P[c].failfd = -1;
+        struct thr *t = add_thr(pid, c);
+        t->proc = c;
+        t->tgid = pid;
+    }
+    for (int c = 0; c < nc; c++) ptrace(PTRACE_SYSCALL, P[c].tgid, 0, 0);
+    alarm(timeout_s);
+    int live = nc;
+    int timed_out = 0;
+    while (live > 0) {
+        int st;
+        int anydelayed = 0;
+        for (int k = 0; k < MAXT; k++)
+            if (T[k].used && T[k].delayed) { anydelayed = 1; break; }
+        pid_t w = waitpid(-1, &st, __WALL | (anydelayed ? WNOHANG : 0));
+        if (alarmed) {
+            timed_out = 1;
+            if (logf) fprintf(logf, "{\"timeout\":true}\n");
+            kill_all();
+            alarmed = 0;
+            alarm(5);
+            if (timed_out > 1) break;
+            continue;
+        }
+        if (w == 0) {
+            /* release due delayed threads */
+            struct timespec now;
+            clock_gettime(CLOCK_MONOTONIC, &now);
+            for (int k = 0; k < MAXT; k++)
+                if (T[k].used && T[k].delayed &&
+                    (now.tv_sec > T[k].release.tv_sec ||
+                     (now.tv_sec == T[k].release.tv_sec && now.tv_nsec >= T[k].release.tv_nsec)))
+                    resume(&T[k]);
+            struct timespec ts = {0, 20000};
+            nanosleep(&ts, NULL);
+            continue;
+        }
+        if (w < 0) {
+            if (errno == EINTR) continue;
+            if (errno == ECHILD) break;
+            die("waitpid: %s", strerror(errno));
+        }
+        struct thr *t = find_thr(w);
+        if (WIFEXITED(st) || WIFSIGNALED(st)) {
+            if (t) {
+                int pi = t->proc;
+                int was_parked = t->parked;
+                t->used = 0;
+                if (pi >= 0 && P[pi].tgid == w) {
+                    P[pi].exited = 1;
+                    P[pi].state = PS_DONE;
+                    P[pi].exit_status = WIFEXITED(st) ? WEXITSTATUS(st) : 128 + WTERMSIG(st);
+                    live--;
+                }
+                (void)was_parked;
+                if (!killed) maybe_decide();
+            }
+            continue;
+        }
+        if (!WIFSTOPPED(st)) continue;
+        if (!t) {
+            /* new thread/process announced before its creator's event: adopt */
+            t = add_thr(w, -1);
+        }
+        int sig = WSTOPSIG(st);
+        int event = (st >> 16) & 0xff;
+        if (sig == (SIGTRAP | 0x80)) {
+            struct ptrace_syscall_info info;
+            memset(&info, 0, sizeof info);
+            long rc = ptrace(PTRACE_GET_SYSCALL_INFO, w, sizeof info, &info);
+            int hold = 0;
+            if (rc > 0 && info.op == PTRACE_SYSCALL_INFO_ENTRY) {
+                if (t->proc < 0) { t->tgid = read_tgid(w); t->proc = proc_of_tgid(t->tgid); }
+                if (!killed) hold = on_entry(t);
+            } else if (rc > 0 && info.op == PTRACE_SYSCALL_INFO_EXIT) {
+                if (!killed) on_exit_stop(t);
+            }
+            if (!hold) ptrace(PTRACE_SYSCALL, w, 0, 0);
+            continue;
+        }
+        if (sig == SIGTRAP && event) {
+            if (event == PTRACE_EVENT_CLONE || event == PTRACE_EVENT_FORK || event == PTRACE_EVENT_VFORK) {
+                unsigned long newtid = 0;
+                ptrace(PTRACE_GETEVENTMSG, w, 0, &newtid);
+                struct thr *nt = add_thr((pid_t)newtid, t->proc);
+                if (nt->proc < 0) nt->proc = t->proc;
+            }
+            ptrace(PTRACE_SYSCALL, w, 0, 0);
+            continue;
+        }
+        if (sig == SIGSTOP && t && !t->in_sys && t->seq == 0) {
+            /* initial stop of a freshly cloned thread */
+            ptrace(PTRACE_SYSCALL, w, 0, 0);
+            continue;
+        }
+        /* deliver other signals */
+        ptrace(PTRACE_SYSCALL, w, 0, (sig == SIGTRAP) ? 0 : sig);
+    }
+    alarm(0);
+    if (logf) {
+        fprintf(logf, "{\"final\":{\"visible\":%ld,\"decisions\":%ld,\"killed\":%s,\"timeout\":%s,\"exit\":[",
+                visible_count, decisions, killed ? "true" : "false", timed_out ? "true" : "false");
+        for (int c = 0; c < nc; c++) fprintf(logf, "%s%d", c ? "," : "", P[c].exit_status);
+        fprintf(logf, "]}}\n");
+        fclose(logf);
+    }
+    if (timed_out) return 3;
+    return 0;
+}
